@@ -362,6 +362,31 @@ def gen_deck(rng, malformed=False):
         for c in cells:
             if rng.random() < 0.5:
                 c['trcl'] = rng.choice(SHIFTS)
+    # MCNP's 1000 * cell + surface: the surface as moved by the TRCL of that
+    # cell, named by a cell without TRCL (one or two per deck, kept only when
+    # Python's set order is the ascending one the model assumes)
+    owners = [c for c in cells if c.get('trcl')]
+    hosts = [c for c in cells if not c.get('trcl')]
+    if hosts and fault in (None, 'macro', 'weird', 'dupnum') \
+            and rng.random() < (0.45 if owners else 0.04):
+        names = set()
+        badref = False
+        for _ in range(rng.choice([1, 1, 2])):
+            roll = rng.random()
+            owner = rng.choice(owners) if owners and roll < 0.9 else \
+                rng.choice(cells + [{'id': 8}])      # no TRCL / no such cell
+            sid = rng.choice(usable + bodies) if rng.random() < 0.93 else 79
+            n = 1000 * owner['id'] + sid
+            if n in names or list(names | {n}) != sorted(names | {n}):
+                continue
+            names.add(n)
+            badref = badref or sid == 79 or owner['id'] == 8
+            lit = -n if sid in bodies or rng.random() < 0.5 else n
+            rng.choice(hosts)['lits'].append(lit)
+        if badref and fault is None:
+            fault = 'missing'       # names a surface / a cell that does not exist
+        elif badref:
+            return gen_deck(rng, malformed)
     return {'surfs': surfs, 'cells': cells, 'fault': fault}
 
 
@@ -395,6 +420,7 @@ def render(deck):
 
 EXC = {'NotImplementedError': 'ENotImplemented',
        'UnboundLocalError': 'EUnbound', 'KeyError': 'EKey',
+
        'ValueError': 'EValue'}
 KIND = {'REFLECTION': 'Reflection', 'COSINUS': 'Cosinus'}
 
@@ -438,8 +464,18 @@ def coq_cells(deck):
                 (cls, *aux), sides = moved_parts(s, c['trcl'])
             lits.append(f'(mkL {cz(x)} {cn(cls)} {clist(cn(a) for a in aux)} '
                         f'{clist(cbool(b) for b in sides)})')
+        impl_ = []
+        if c.get('trcl'):
+            for n in sorted(k for k, v in last.items()
+                            if v.get('moved') and k // 1000 == c['id']):
+                v = last[n]
+                impl_.append(cpair(
+                    cn(n % 1000),
+                    f'(mkD {cn(v["cls"])} {clist(cn(a) for a in v["aux"])} '
+                    f'{clist(cbool(b) for b in v["sides"])})'))
         out.append(f'(mkC {cn(c["id"])} {cbool(c["imp"] != 0)} '
-                   f'{cbool(bool(c.get("trcl")))} {clist(lits)})')
+                   f'{cbool(bool(c.get("trcl")))} {clist(lits)} '
+                   f'{clist(impl_)})')
     return clist(out)
 
 
@@ -455,6 +491,10 @@ def mcnp_value(deck, s, p, shift=None):
         tr = {'O': list(shift[:3]),
               'B': list(shift[3:12]) if len(shift) > 3 else None}
         p = tuple(mcnpref.to_aux(tr, p))
+    if s.get('moved'):        # an implicit surface 1000 * cell + surface
+        v = [float(x) for x in s['moved'].split()]
+        p = tuple(mcnpref.to_aux({'O': v[:3],
+                                  'B': v[3:12] if len(v) > 3 else None}, p))
     if s.get('tr'):
         vec = deck['trs'][s['tr']]
         p = tuple(np.asarray(p, float) - np.array(vec, float))
@@ -492,11 +532,26 @@ def cell_refs(deck, c, seen=()):
 
 
 def effective_surfs(deck):
-    '''What each surface number finally denotes (a later card with the same
-    number replaces an earlier one).'''
+    '''What each surface number finally denotes: a later card with the same
+    number replaces an earlier one; a number n >= 1000 named by a cell and
+    not a card is surface n % 1000 as moved by the TRCL of cell n // 1000
+    (it inherits the flag).'''
     last = {}
     for s in deck['surfs']:
         last[s['id']] = s
+    cells = {c['id']: c for c in deck['cells']}
+    for c in deck['cells']:
+        for x in c.get('lits') or []:
+            n = abs(x)
+            base, owner = last.get(n % 1000), cells.get(n // 1000)
+            if n < 1000 or n in last or base is None or owner is None:
+                continue
+            if not owner.get('trcl'):     # no TRCL: an untransformed copy
+                last[n] = dict(base, id=n, implicit=True, zeros=False)
+                continue
+            (cls, *aux), sides = moved_parts(base, owner['trcl'])
+            last[n] = dict(base, id=n, cls=cls, aux=aux, sides=list(sides),
+                           moved=owner['trcl'], implicit=True, zeros=False)
     return last
 
 
@@ -1140,6 +1195,12 @@ def run(res, tier, seed, proofs_ok):
         res.seen((text, args), nontrivial=n_flag > 0)
         res.count(f'flagged:{min(n_flag, 5)}')
         res.count('fault:' + str(deck['fault']))
+        res.count('shape:implicit-1000*cell+surf:' + str(any(
+            abs(x) >= 1000 for c in deck['cells'] for x in c['lits'])))
+        res.count('shape:trcl:' + str(any(c.get('trcl') for c in deck['cells'])))
+        res.count('shape:collection-in-cell:' + str(any(
+            not s['single'] and any(abs(x) % 1000 == s['id'] for c in deck['cells']
+                                    for x in c['lits']) for s in deck['surfs'])))
         res.count('impl:' + (conv.exc or 'ok'))
         res.count('dedup:' + str('--skip-deduplication' not in args))
         cases.append(cpair(cbool('--skip-deduplication' in args),
